@@ -160,6 +160,10 @@ def gen_cases(seed, n, limit=32, prefix="g"):
             # dyadic weight scale applied inside the harness (see centgen.py): the weighted coefficients are
             # invariant under it, so the model and the oracle run on the unscaled cubes
             case["wscale"] = rng2.pick([-60, -3, -1, 40, 360, -360])   # +-360: the product of three raw weights over/underflows
+        if i % 5 == 1:
+            # a multi-step build: existing nodes are re-added after the edges (add_node on an existing name only updates
+            # its attributes - C01_readd_keeps_position), so the model's answer for the one-call build still applies
+            case["readd"] = [names[(3 * i + k) % len(names)] for k in range(1 + i % 3)]
         out.append(case)
     return out
 
@@ -313,6 +317,8 @@ class ClusterProp(props.BaseProp):
                  "spec %d %d %d %d %d %d" % tuple(c["spec"]), graph_lines(c),
                  "weighted %d" % c.get("weighted", 0)]
         lines += ["sub %d %s" % (len(s), " ".join(str(x) for x in s)) for s in c["subs"]]
+        if c.get("readd"):
+            lines.append("readd %s" % " ".join(str(x) for x in c["readd"]))
         lines.append("end")
         return "\n".join(lines)
 
@@ -321,7 +327,8 @@ class ClusterProp(props.BaseProp):
                                     "; ".join(hist.zl(s) for s in c["subs"]))
 
     def case_json(self, c):
-        return dict({k: c[k] for k in ("id", "spec", "nodes", "edges", "weighted", "subs")}, wscale=c.get("wscale", 0))
+        return dict({k: c[k] for k in ("id", "spec", "nodes", "edges", "weighted", "subs")}, wscale=c.get("wscale", 0),
+                    readd=c.get("readd", []))
 
     def case_from_json(self, j):
         j = dict(j)
